@@ -492,8 +492,8 @@ def replay(data):
     same call run first."""
     d = data['detail']
     if 'history' not in d or 'position' not in d:
-        from ..replay import replay_grammar_case
-        return replay_grammar_case(data)
+        from ..replay import replay_by_rerun
+        return replay_by_rerun(sys.modules[__name__], data)
     names = [str(c) for c in CALLS]
     hist = tuple(names.index(h) for h in d['history'])
     r = in_child(run_history, hist)
